@@ -27,6 +27,7 @@ fn main() {
         }
         "check" => cmd_check(&args[2..]),
         "export-seeds" => cmd_export(&args[2..]),
+        "scale" => cmd_scale(&args[2..]),
         "max-tape" => {
             let Some(p) = args.get(2).and_then(|id| ohv::find_prop(id)) else { usage() };
             println!("{}", p.max_tape.1);
@@ -155,6 +156,19 @@ fn cmd_check(args: &[String]) {
     } else {
         run_corpus(prop, o.tier, &vd, &known)
     };
+    let mut scale_run = false;
+    if !o.child && stats.failure.is_none() && stats.harness_error.is_none() && std::env::var("OHV_NO_CORPUS").is_err() {
+        if prop.scale.is_some() {
+            scale_run = true;
+            if let Some(f) = run_scale_child(prop) {
+                stats.failure = Some(f);
+            } else {
+                stats.evaluations += 1;
+                *stats.classes.entry("scale-cases-passed".into()).or_default() += 1;
+            }
+        }
+    }
+    let _ = scale_run;
     if let Ok(extra) = std::env::var("OHV_EXTRA_TAPE") {
         if let Some(words) = read_tape_file(std::path::Path::new(&extra)) {
             if stats.failure.is_none() {
@@ -299,6 +313,36 @@ fn cmd_replay(args: &[String]) {
         std::process::exit(2);
     };
     let path = PathBuf::from(&args[1]);
+    let text = std::fs::read_to_string(&path).unwrap_or_default();
+    if text.contains("origin: scale case") {
+        match run_scale_child(prop) {
+            None => {
+                println!("replay [scale cases]: pass");
+                std::process::exit(0);
+            }
+            Some(f) => {
+                println!("replay [scale cases]: FAIL\nsub_check: {}\nmessage: {}", f.sub_check, f.message);
+                println!("VIOLATION property={} replay={}", prop.id, path.display());
+                std::process::exit(1);
+            }
+        }
+    }
+    if text.contains("origin: hand-written regression case") {
+        if let Some(fixed) = prop.fixed {
+            let mut ctx = Ctx::new(Tier::Quick, false);
+            match fixed(&mut ctx) {
+                Ok(()) => {
+                    println!("replay [hand-written regression cases]: pass");
+                    std::process::exit(0);
+                }
+                Err(v) => {
+                    println!("replay [hand-written regression cases]: FAIL\nsub_check: {}\nmessage: {}\ncase: {}", v.sub_check, v.message, v.dump);
+                    println!("VIOLATION property={} replay={}", prop.id, path.display());
+                    std::process::exit(1);
+                }
+            }
+        }
+    }
     let Some(words) = read_tape_file(&path) else {
         eprintln!("HARNESS-ERROR: cannot read a tape from {}", path.display());
         std::process::exit(2);
@@ -374,6 +418,59 @@ fn cmd_export(args: &[String]) {
         }
     }
     println!("exported {} seeds to {}", k + n, dir.display());
+}
+
+/// run the property's large structured cases in this process (on the main thread)
+fn cmd_scale(args: &[String]) {
+    let Some(prop) = args.first().and_then(|id| ohv::find_prop(id)) else { usage() };
+    let Some(scale) = prop.scale else {
+        println!("no scale cases");
+        return;
+    };
+    let mut ctx = Ctx::new(Tier::Thorough, false);
+    let r = std::panic::catch_unwind(std::panic::AssertUnwindSafe(|| scale(&mut ctx)));
+    match r {
+        Ok(Ok(())) => println!("scale cases passed: {:?}", ctx.sub_checks),
+        Ok(Err(v)) => {
+            println!("sub_check: {}", v.sub_check);
+            println!("message: {}", v.message.replace('\n', " "));
+            println!("case: {}", v.dump.replace('\n', " "));
+            std::process::exit(1);
+        }
+        Err(_) => {
+            println!("sub_check: no-panic");
+            println!("message: panic while running the scale cases; case: {}", ctx.dump.replace('\n', " "));
+            std::process::exit(1);
+        }
+    }
+}
+
+/// parent side: run `ohv scale <ID>` as a child; a dead child is a violation of "returns for every input"
+fn run_scale_child(prop: &Prop) -> Option<Failure> {
+    prop.scale?;
+    let exe = std::env::current_exe().ok()?;
+    let out = Command::new(exe).arg("scale").arg(prop.id).stdout(Stdio::piped()).stderr(Stdio::piped()).output().ok()?;
+    let text = String::from_utf8_lossy(&out.stdout).to_string();
+    let err = String::from_utf8_lossy(&out.stderr).to_string();
+    match out.status.code() {
+        Some(0) => None,
+        Some(1) => {
+            let get = |k: &str| text.lines().find_map(|l| l.strip_prefix(k)).unwrap_or("").trim().to_string();
+            Some(Failure { words: vec![], sub_check: get("sub_check:"), message: get("message:"), dump: get("case:"), origin: "scale case (large structured input, child process)".into() })
+        }
+        other => Some(Failure {
+            words: vec![],
+            sub_check: "scale-returns".into(),
+            message: format!(
+                "the process running the large structured cases died (exit code {:?}, signal {:?}): {}",
+                other,
+                std::os::unix::process::ExitStatusExt::signal(&out.status),
+                err.lines().rev().take(3).collect::<Vec<_>>().join(" | ")
+            ),
+            dump: text.lines().last().unwrap_or("").to_string(),
+            origin: "scale case (large structured input, child process)".into(),
+        }),
+    }
 }
 
 fn build_name() -> &'static str {
